@@ -34,19 +34,23 @@ class C14:
     prop = "C14"
     level = "exploration"
     chunk = 2
-    rule = ("run = one (policy, environment) pair of the allow-list (seeded choice over 23 pairs) x a tiny "
+    rule = ("run = one (policy, environment) pair of the allow-list (seeded choice over 25 pairs) x a tiny "
             "policy whose weights are a function of the plan (embed 32, 1-2 layers, random normalisation "
             "kind, non-trivial batch-norm running statistics), eval() mode, greedy decoding (for some runs "
             "greedy multi-start / PolyNet's k strategies) x 3-5 generator instances; each instance is "
             "decoded alone (B=1) and then inside 3-4 scheduled compositions (subset, permutation, "
-            "duplicates, pair, DataLoader chunking with a batch size that may not divide).  Non-trivial = at "
+            "duplicates, pair, DataLoader chunking with a batch size that may not divide; for plain greedy runs of "
+            "am/ham/symnco/nar the loader composition also goes through rl4co.tasks.eval.evaluate_policy and its "
+            "per-item rewards are compared with the solo rewards).  Non-trivial = at "
             "least one composition with B>=2 was compared row by row with the solo results; distinct = "
             "distinct event-log digest.")
     components_real = ["rl4co.models.zoo.{am,ptrnet,ham,mdam,polynet,symnco,matnet,l2d} policies (encoder, "
                        "decoder, env embeddings, attention, normalisation)",
                        "rl4co.utils.decoding (Greedy strategy, multistart hook, get_log_likelihood)",
                        "rl4co.envs.* reset/step/get_reward of 15 environments", "rl4co generators",
-                       "env.dataset_cls + torch DataLoader + collate_fn (loader compositions)"]
+                       "env.dataset_cls + torch DataLoader + collate_fn (loader compositions)",
+                       "rl4co.tasks.eval.evaluate_policy / GreedyEval / EvalBase.__call__ (chunk concatenation)",
+                       "NonAutoregressivePolicy + NonAutoregressiveDecoder (stub heatmap encoder)"]
     components_stub = ["policy weights: seeded random initialisation instead of a trained checkpoint",
                        "row-keyed RNG seam: torch.rand*/randint inside the forward pass draw row i from "
                        "Generator(H(instance id, call no)) (MatNet's random one-hot column embedding)"]
@@ -54,7 +58,8 @@ class C14:
                    "(3-8 nodes; 8% at 20-50)", "greedy near-ties (log-prob gap < 1e-5 in both runs) are "
                    "indeterminate, not violations", "random draws inside a forward pass are per-instance "
                    "(row-keyed seam), so MatNet is judged on what it does with its draws, not on the RNG"]
-    required_probes = ["solo_b1", "loader_partial_chunk", "dup_rows", "unequal_lengths", "rng_keyed_draws"]
+    required_probes = ["solo_b1", "loader_partial_chunk", "dup_rows", "unequal_lengths", "rng_keyed_draws",
+                       "evaluate_policy_partial_last_chunk"]
     excluded = U.EXCLUDED
     CANARIES = {}
 
@@ -196,10 +201,62 @@ class C14:
                         run.state(scope, B, pos, s, len(got["actions"][0]))
                 run.log.add("comp", ci, comp["kind"], chunk_rows,
                             [_hex(x) for x in res["reward"].flatten().tolist()])
+            if comp["kind"] == "loader" and plan["mode"] == "greedy" and spec["name"] in EVAL_API_POLICIES \
+                    and cfg["env"] in EVAL_API_ENVS:
+                _evaluate_policy_chunking(ctx, rows, comp, solo, ci)
 
 
 def _n_starts_cap(cfg):
     return max(2, int(cfg["gen"].get("num_loc", cfg["n"])) - 1)
+
+
+# policies / environments the evaluation module (rl4co.tasks.eval) can drive: plain constructive forward, and
+# an objective that is a function of (instance, actions) -- it re-scores on a freshly reset state
+EVAL_API_POLICIES = ("am", "ham", "symnco", "nar")
+EVAL_API_ENVS = ("tsp", "cvrp", "cvrptw", "sdvrp", "op", "pctsp", "pdp")
+
+
+def _evaluate_policy_chunking(ctx, rows, comp, solo, ci):
+    """The same loader composition through rl4co.tasks.eval.evaluate_policy(method='greedy'): the reward it
+    reports for the j-th dataset item is the instance's solo reward, however the dataset is chunked ("evaluation
+    results do not depend on how a dataset happens to be chunked")."""
+    from rl4co.tasks import eval as EV
+
+    run, env, cfg, policy, scope = ctx["run"], ctx["env"], ctx["cfg"], ctx["policy"], ctx["scope"]
+    order = list(comp["rows"])
+    bs = max(1, int(comp["batch_size"]))
+    td_all = E.batch_of(cfg, [{k: v.clone() for k, v in rows[i].items()} for i in order])
+    with U.inference():
+        torch.manual_seed(ctx["salt"] % (2**31 - 1))
+        import contextlib
+        import io
+
+        sink = io.StringIO()  # the evaluation module reports through tqdm.write
+        with run.guard(scope, "evaluate_policy(method='greedy')", batch_size=bs, n=len(order), phase="evaluate_policy"), \
+                contextlib.redirect_stdout(sink), contextlib.redirect_stderr(sink):
+            ds = env.dataset_cls(td_all)
+            # the evaluation classes call policy(td) without an environment (the policy would build a default
+            # one from its env_name): hand it the configured environment, as U.PolicyTap does for C15
+            res = EV.evaluate_policy(env, U.PolicyTap(policy, env, True), ds, method="greedy", batch_size=bs,
+                                     auto_batch_size=False, progress=False)
+    rew = torch.as_tensor(res["rewards"]).detach().flatten()
+    if rew.shape[0] != len(order):
+        run.violate(scope, "reward_differs", f"evaluate_policy returns {rew.shape[0]} rewards for {len(order)} dataset "
+                    f"items (batch_size {bs})", constraint="evaluate_policy:count", composition=ci, batch_size=bs,
+                    policy=ctx["spec"], cfg=cfg)
+        raise StopRun()
+    for j, i in enumerate(order):
+        rS = solo[i][0]["reward"][0]
+        rB = float(rew[j])
+        T = len(solo[i][0]["actions"][0])
+        if (rS != rS) != (rB != rB) or (rS == rS and abs(rS - rB) > _tol(rS, T)):
+            run.violate(scope, "reward_differs", f"evaluate_policy (batch_size {bs}) reports {rB!r} for dataset item {j} "
+                        f"(instance {i}); decoded alone the instance gets {rS!r}", constraint="evaluate_policy:reward",
+                        composition=ci, batch_size=bs, item=j, instance=i, got=rB, ref=rS, policy=ctx["spec"], cfg=cfg)
+            raise StopRun()
+    run.probe("evaluate_policy_chunked")
+    if len(order) % bs != 0 and len(order) > bs:
+        run.probe("evaluate_policy_partial_last_chunk")
 
 
 def _loader_chunks(ctx, rows, comp):
